@@ -125,6 +125,32 @@ def d2_columns(ctx, rep):
             rep.check('D2.coappend', fit, anchor, not vc[2] and not vu[2], 'one entry per training column, none skipped',
                       'columns can be skipped while fitting: a training column is missing from the model and from every sample',
                       construct='every column kept')
+    # the order of self.columns is the column order of the training table
+    from ..idioms import attr_stores
+    from ..kinds import OrderKind, fmt_tag, tag_compat
+    from ..absint import Tup as _Tup
+    okd = OrderKind(ctx)
+    cls = ctx.prog.cls(gauss.GM)
+    frf = Frame(fit, {}, cls)
+    sts = attr_stores(fit, 'columns')
+    if len(sts) == 1:
+        st, v = sts[0]
+        if isinstance(v, tuple) and v and v[0] == 'unpack':
+            val = okd.value(v[1], frf)
+            val = val.elems[v[2]] if isinstance(val, _Tup) and v[2] < len(val.elems) else TOP
+        else:
+            val = okd.value(v, frf) if v is not None else TOP
+        xs = fit.params[1]
+        want = ('xcols', f'fit.{xs}')
+        tag = val[1] if isinstance(val, tuple) and val and val[0] == 'ord' else None
+        comp = tag_compat(tag, want) if tag is not None else None
+        if comp is True:
+            rep.ok('D2.coappend', fit, st, f'self.columns is ordered like the columns of the training table ({fmt_tag(tag)})', construct='order of self.columns')
+        elif comp is False:
+            rep.bad('D2.coappend', fit, st, f'self.columns is ordered by {fmt_tag(tag)}, not like the columns of the training table: samples, the '
+                    'correlation labels and positional array input use another column order', construct='order of self.columns')
+        else:
+            rep.undecided('D2.coappend', fit, st, f'order of self.columns not derivable ({val})', construct='order of self.columns')
     return
 
 
